@@ -306,8 +306,11 @@ def run_check(chk, tier, seed):
     io_events = 0
     clock_span = 0
     nontriv = 0
+    unclean = []     # plans whose fault-free twin was not read cleanly: not judged by this check, but worth a look (C01 territory)
     for r in done:
         f = r["feat"]
+        if f.get("probes", {}).get("twin_not_clean") and len(unclean) < 8:
+            unclean.append(r["i"])
         if f.get("nontrivial") and not r["herr"]:
             if f["shape"] not in shapes:
                 shapes.add(f["shape"])
@@ -340,6 +343,9 @@ def run_check(chk, tier, seed):
         "known_findings_hit": dict(sorted(known_hit.items())),
         "violation_classes": sorted(set(v[0] for v in violations)),
     }
+    if unclean:
+        cov["twin_not_clean_plan_indices"] = unclean
+        log("[%s] note: the fault-free twin of plan(s) %s was not read cleanly (not judged here; re-generate with --seed %d to inspect)" % (prop, unclean, seed))
     cov.update(chk.extra_coverage(tier, done))
     core.write_evidence(prop, tier, seed, chk.level, cov, wall, len(violations), chk.assumptions)
     core.close_executors()
